@@ -11,7 +11,7 @@ import collections
 import json
 import re
 
-from typedpy import Structure, Deserializer
+from typedpy import Structure, Deserializer, deserialize_structure
 from typedpy.errors import standard_readable_error_for_typedpy_exception, ErrorInfo
 
 from .. import dump, gen
@@ -35,7 +35,33 @@ def scalar_payload(rng, fd):
 def invalid_value(rng, vg, fd, valid):
     """a value intended to be invalid for fd, made invalid in one of several ways"""
     k = fd["k"]
-    way = rng.choice(["confusion", "boundary", "corrupt", "payload", "payload"])
+    way = rng.choice(["confusion", "boundary", "corrupt", "payload", "payload", "elem-bound"])
+    if way == "elem-bound":
+        # an element / key / value just outside a bound of its item declaration (ints and floats)
+        its = [d for d in item_decls(fd) if out_of_bound(vg, d)]
+        if its and isinstance(valid, dict):
+            it = rng.choice(its)
+            bad = rng.choice(out_of_bound(vg, it))[1]
+            for tag in ("l", "t", "q", "s", "fs"):
+                if tag in valid:
+                    xs = list(valid[tag])
+                    if k in ("seqPos", "tuplePos"):
+                        idx = [i for i, d in enumerate(fd["items"]) if d is it]
+                        if idx and idx[0] < len(xs):
+                            xs[idx[0]] = bad
+                        else:
+                            xs.append(bad)
+                    elif xs:
+                        xs[rng.randrange(len(xs))] = bad
+                    else:
+                        xs = [bad]
+                    return "elem-bound", {tag: xs}
+            if "m" in valid:
+                kvs = [list(kv) for kv in valid["m"]] or [["k1", 1]]
+                i = rng.randrange(len(kvs))
+                kvs[i][0 if it is fd.get("key") else 1] = bad
+                return "elem-bound", {"m": kvs}
+        way = "boundary"
     if way == "boundary":
         b = vg.boundary(fd)
         if b:
@@ -104,10 +130,117 @@ def gen_flat(rng, tier, n_classes):
                 # optional valid fields are sometimes left out
                 kwl = [[k, v] for k, v in kw.items() if k in sub or k in cls["required"] or rng.random() < 0.7]
                 rng.shuffle(kwl)
+                entry = rng.choice(["Deserializer", "deserialize_structure"])
                 for mode in ("construct", "deser"):
                     for ff in (True, False):
-                        cases.append({"suite": "errors", "cls": cls, "kw": kwl, "mode": mode, "ff": ff,
+                        cases.append({"suite": "errors", "cls": cls, "kw": kwl, "mode": mode, "ff": ff, "entry": entry,
                                       "sub": sub, "ways": ways, "re": gen.re_table(cls, kwl)})
+    return cases
+
+
+def item_decls(fd):
+    """the item / key / value declarations of a flat collection declaration"""
+    out = []
+    if isinstance(fd.get("item"), dict):
+        out.append(fd["item"])
+    out += [x for x in fd.get("items", []) if isinstance(x, dict)]
+    out += [fd[k] for k in ("key", "val") if isinstance(fd.get(k), dict)]
+    return out
+
+
+def out_of_bound(vg, fd):
+    """boundary neighbours of fd's bounds that (by the steering predicate) violate them: numbers in
+    int AND float spelling, strings just beyond a length bound"""
+    k = fd["k"]
+    out = []
+    if k in ("integer", "number", "float"):
+        for x in vg.num_candidates(fd):
+            if not vg.guess_num_ok(fd, x):
+                if x.denominator == 1:
+                    out.append(("int", int(x)))
+                if k != "integer" and float(x) == x:
+                    out.append(("float", gen.fl(x)))
+    elif k == "string":
+        for sv in vg.boundary(fd):
+            if isinstance(sv, str) and not vg.guess_str_ok(fd, sv):
+                out.append(("str", sv))
+    return out
+
+
+def put_in_container(rng, vg, cont, item, bad):
+    """a value for container declaration `cont` (items = item) holding `bad` among valid elements"""
+    ok = vg.valid(item)
+    pads = [] if ok is gen.NOVALUE else [ok]
+    k = cont["k"]
+    if k == "seqOf":
+        xs = pads + [bad]
+        rng.shuffle(xs)
+        return {"q" if cont.get("seq") == "deque" else "l": xs}
+    if k == "setOf":
+        return {"s": gen.dedup_wire(pads + [bad])}
+    if k == "tupleOf":
+        return {"t": pads + [bad]}
+    if k == "tuplePos":
+        return {"t": ["ab", bad]}
+    if k == "seqPos":
+        return {"l": [bad, 1]}
+    if k == "mapOf":
+        return {"m": [["k1", bad]]}
+    return bad
+
+
+def gen_directed(rng, tier):
+    """directed stream: every bounded scalar kind (numbers in int and float spelling, strings), bare and
+    as the element of every collection kind, violated alone and together with a second / third
+    invalid field, through the constructor and both deserialization entry points, fail-fast on/off.
+    Region: which checks run in which phase of deserialization, per field kind and value spelling."""
+    cases = []
+    vg = gen.ValGen(rng)
+    reps = 1 if tier == "quick" else 4
+    ci = 0
+    for _ in range(reps):
+        for kind in ("float", "float", "number", "integer", "string"):
+            dg = gen.DeclGen(rng, max_depth=1, p_constraint=0.8)
+            item = dg.scalar(kind)
+            bads = out_of_bound(vg, item)
+            if not bads:
+                continue
+            conts = [None, {"k": "seqOf"}, {"k": "seqOf", "seq": "deque"}, {"k": "setOf"}, {"k": "tupleOf"},
+                     {"k": "tuplePos"}, {"k": "seqPos"}, {"k": "mapOf"}]
+            for cont in conts:
+                if cont is None:
+                    fd = item
+                elif cont["k"] in ("seqOf", "setOf", "tupleOf"):
+                    fd = dict(cont, item=item)
+                elif cont["k"] == "tuplePos":
+                    fd = dict(cont, items=[{"k": "string"}, item])
+                elif cont["k"] == "seqPos":
+                    fd = dict(cont, items=[item, {"k": "integer"}])
+                else:
+                    fd = dict(cont, key={"k": "string"}, val=item)
+                if cont is not None and cont["k"] == "setOf" and kind == "string" and False:
+                    continue
+                ci += 1
+                cls = {"k": "struct", "name": f"D{ci}", "required": sorted(rng.sample(["x", "n"], rng.randint(0, 2))),
+                       "addl": rng.random() < 0.5,
+                       "fields": [["x", fd], ["n", {"k": "integer"}], ["t", {"k": "string", "maxLength": 3}]]}
+                # one representative per spelling, chosen by the rng
+                by_sp = {}
+                for sp, b in bads:
+                    by_sp.setdefault(sp, []).append(b)
+                for sp, pool in sorted(by_sp.items()):
+                    bad = put_in_container(rng, vg, cont or {"k": "bare"}, item, rng.choice(pool))
+                    for others in ([], [["n", "x"]], [["n", rng.choice([None, "q", {"l": []}])], ["t", "toolong"]], [["n", 3], ["t", "ok"]]):
+                        kwl = [["x", bad]] + others
+                        for r in cls["required"]:
+                            if r not in [k for k, _ in kwl]:
+                                kwl.append([r, 1])
+                        sub = ["x"] + [k for k, v in others if not (k == "n" and v == 3) and not (k == "t" and v == "ok")]
+                        for mode, entry in (("construct", None), ("deser", "Deserializer"), ("deser", "deserialize_structure")):
+                            for ff in (True, False):
+                                cases.append({"suite": "errors", "cls": cls, "kw": kwl, "mode": mode, "ff": ff, "entry": entry,
+                                              "sub": sub, "ways": ["directed:" + sp + ":" + (cont["k"] if cont else "bare")],
+                                              "re": gen.re_table(cls, kwl)})
     return cases
 
 
@@ -202,7 +335,7 @@ def fixed_cases():
 
 def gen_cases(rng, tier):
     n = 160 if tier == "quick" else 1400
-    return fixed_cases() + gen_flat(rng, tier, n) + gen_nested(rng, tier, 60 if tier == "quick" else 500)
+    return fixed_cases() + gen_directed(rng, tier) + gen_flat(rng, tier, n) + gen_nested(rng, tier, 60 if tier == "quick" else 500)
 
 
 # ------------------------------------------------------------------ documents and lifting
@@ -295,12 +428,16 @@ def run_impl(case):
         return {"unbuildable": f"value: {type(e).__name__}: {e}"}
     res = {"cls_actual": cls_actual,
            "kw_actual": [[k, C.rename_inline(dump.dump_value(v, ctx), ctx)] for k, v in lifted.items()]}
+    if mode == "deser":
+        res["doc_actual"] = [[k, dump.dump_value(v, ctx)] for k, v in kw.items()]
     ff = bool(case["ff"])
     Structure.set_fail_fast(ff)
     try:
         try:
             if mode == "construct":
                 cls(**kw)
+            elif case.get("entry") == "deserialize_structure":
+                deserialize_structure(cls, kw)
             else:
                 Deserializer(cls).deserialize(kw)
             res["raised"] = None
@@ -318,9 +455,9 @@ def run_impl(case):
         res["ff_after"] = Structure.failing_fast()
     finally:
         Structure.set_fail_fast(True)
-    if mode == "deser" and res.get("raised") is not None:
-        # reference for classifying the two-phase finding only: which supplied fields does the
-        # first phase (deserialize_single_field, same real code, one field at a time) reject
+    if mode == "deser":
+        # phase one on the real code, one field at a time: which supplied fields does
+        # deserialize_single_field reject (compared with the Lean model `phaseOneInvalid`)
         from typedpy.serialization.serialization import deserialize_single_field
         ign = bool(decl.get("ignoreNone"))
         p1 = []
@@ -334,6 +471,7 @@ def run_impl(case):
             except Exception:  # noqa
                 pass
         res["phase1_rejects"] = p1
+    if mode == "deser" and res.get("raised") is not None:
         # reference for the `unnamed-inner-field` finding only: the exact texts the inner fields'
         # own `_validate` produces for the supplied elements / keys / values (their scratch `_name`
         # is still unset when the first phase failed)
@@ -385,6 +523,8 @@ def all_texts(msg, depth=0):
 def line(case, impl):
     l = {"suite": "errors", "cls": impl.get("cls_actual", case["cls"]), "kw": impl.get("kw_actual", []),
          "ff": bool(case["ff"]), "mode": case["mode"], "re": case.get("re", [])}
+    if impl.get("doc_actual") is not None:
+        l["doc"] = impl["doc_actual"]
     if impl.get("msg") is not None:
         l["msg"] = impl["msg"]
         # oracle answers for `\w`: the non-ASCII characters of the message that str.isalnum() accepts
@@ -440,6 +580,19 @@ def readable_correspondence(impl, model):
         d = info_eq(x, y)
         if d:
             return "helper: " + d + " for message " + repr(impl.get("msg"))[:300]
+    return None
+
+
+def deser_correspondence(case, impl, model):
+    """phase-one model vs the real deserialize_single_field, field by field"""
+    if "phase1_rejects" not in impl or "phase1" not in model:
+        return None
+    m, r = sorted(model["phase1"]), sorted(impl["phase1_rejects"])
+    if m != r:
+        return (f"phase one of deserialization: model rejects {m}, real deserialize_single_field rejects {r} "
+                f"for document {json.dumps(impl.get('doc_actual'), ensure_ascii=False)[:300]}")
+    if m and impl.get("raised") is None:
+        return f"phase one rejects {m} but deserialization raised nothing"
     return None
 
 
@@ -611,11 +764,11 @@ def oracle(case, impl, model):
                 # fields that only the constructor rejects are not reported when another field
                 # already failed in the first phase.  Fields the first phase itself rejects (probe on
                 # the real deserialize_single_field) must all be there.
-                p1 = impl.get("phase1_rejects", [])
+                p1 = model.get("phase1", [])   # the Lean model of phase one, not the code under test
                 first = [n for n in missing if n in p1]
                 if first:
                     fails.append(("collect-all:missing-field:deser-phase-one",
-                                  f"invalid fields {first} rejected by deserialize_single_field are not reported: {msg!r} [{where}]"))
+                                  f"invalid fields {first}, which deserialization's own first phase must reject, are not reported: {msg!r} [{where}]"))
                 else:
                     fails.append(("collect-all:missing-field:deser-two-phase",
                                   f"invalid fields {missing} are not reported by deserialization: {msg!r} [{where}]"))
